@@ -151,17 +151,18 @@ CLAIMED = {
             "flag forwarding of to_si/from_si are compared structurally.",
             "Trusts the partial evaluator (sa/peval.py) and the reference constants in sa/props/c17.py (taken from the property statement and "
             "EPANET's unit definitions); last-ulp rounding and numpy broadcasting semantics are not decided.", "DESIGN.md §4 C17"),
-    "C18": ("CFG dominance (label stores vs counter increments), def-use slice of the returned size table, classification of DataFrame row "
-            "accessors by the source of their index variable, symbolic path enumeration of the three criticality helpers, argument binding of "
-            "the helper calls",
-            "Decides FOUR STRUCTURAL CLAUSES ONLY of valve segmentation: every fresh segment label is the counter after an increment (positive "
-            "labels); the reported segment sizes are the value counts of the two returned label series; valve_segment_attributes addresses the "
-            "rows of the valve layer by valve number (label accessor with an index-label variable, positional accessor with a position) and keys "
-            "its result by valve number; each criticality value is 0 on every path where the node-side and link-side labels are equal, and the "
-            "three helpers receive the layer and the two labellings in their own parameter order.",
-            "Does NOT decide the central clause: that two elements share a label exactly when they can be joined without passing a valve (graph "
-            "reachability through networkx on every multigraph and valve layer), nor that num_surround counts exactly the bounding valves, nor the "
-            "demand/length ratios. A labelling bug inside the component passes is invisible to this check.", "DESIGN.md §4 C18, §9.9b"),
+    "C18": ("finite evaluation of valve_segments and valve_segment_attributes by the in-house interpreter on 39 fixture multigraphs (real networkx graphs, pandas replaced "
+            "by stand-ins) against a union-find reference partition; CFG dominance (label stores vs counter increments), def-use slice of the returned size table, "
+            "classification of DataFrame row accessors by the source of their index variable, symbolic path enumeration of the three criticality helpers, argument binding "
+            "of the helper calls",
+            "Decides (a) ON A FIXTURE FAMILY of 15 hand-made and 24 pseudo-random multigraphs of 3..7 nodes (parallel / anti-parallel links, loops, several components, "
+            "empty layer, duplicated rows, links valved at both ends, nodes valved on every link) that valve_segments returns positive labels whose blocks are exactly the "
+            "partition induced by the valve layer, with a size table counting them, and that valve_segment_attributes reports per valve number (index with gaps) the other "
+            "non-bypassed valves bounding the two segments and the demand / length gains, zeros for a bypassed valve; (b) for every input, four structural clauses: fresh "
+            "labels are the counter after an increment; the size table is the value counts of the two returned series; rows of the valve layer are addressed by valve "
+            "number; each criticality value is 0 where both sides are one segment and the helpers receive their arguments in their own parameter order.",
+            "The partition and the attribute values are decided on the fixtures only (bounded); sa/minipandas.py models the pandas operations used and is part of the "
+            "trusted base, networkx is the real library. Graph reachability on every multigraph is not decided.", "DESIGN.md §4 C18, §9.9b, §9.11"),
     "C19": ("formula extraction (AST -> sympy) of the length / elevation / coordinate expressions of _split_or_break_pipe compared as identities in "
             "the split fraction; argument binding through add_pipe's signature; must-precede ordering of refusals vs mutations; use-analysis of "
             "the caller's model parameter (copy isolation); guard-conjunct extraction for every remove_link / remove_node of _Skeletonize; "
